@@ -9,9 +9,12 @@ from z3 import Solver, Not, unsat, sat, unknown
 CVC5 = '/usr/bin/cvc5'
 
 
-def z3_check(hyps, goal, timeout_ms):
+def z3_check(hyps, goal, timeout_ms, seed=0):
     s = Solver()
     s.set('timeout', timeout_ms)
+    if seed:
+        s.set('random_seed', seed)
+        s.set('seed', seed) if False else None
     for h in hyps:
         s.add(h)
     s.add(Not(goal))
@@ -46,8 +49,14 @@ def cvc5_check(solver, timeout_ms):
 
 
 def discharge(ob, extra_hyps=(), timeout_ms=10000, use_cvc5=True):
-    """sets ob.result in {'proved','refuted','unknown'}, ob.backend, ob.time, ob.model"""
+    """first pass: one z3 call.  sets ob.result in {'proved','refuted','unknown'}"""
     hyps = list(extra_hyps) + list(ob.hyps)
+    dump = os.environ.get('RXV_DUMP')
+    if dump and dump in ob.name:
+        sd = Solver(); sd.add(*hyps); sd.add(Not(ob.goal))
+        os.makedirs('/tmp/scratch/dump', exist_ok=True)
+        import re
+        open('/tmp/scratch/dump/' + re.sub(r'[^A-Za-z0-9_.-]+', '_', ob.name)[-120:] + '.smt2', 'w').write(sd.to_smt2())
     r, dt, s = z3_check(hyps, ob.goal, timeout_ms)
     ob.time = dt
     ob.backend = 'z3'
@@ -58,26 +67,62 @@ def discharge(ob, extra_hyps=(), timeout_ms=10000, use_cvc5=True):
         ob.model = s.model()
     else:
         ob.result = 'unknown'
-        # R4: models are found on small instances -- bound every integer symbol and retry (sound for refutation only)
-        for B in (2, 4, 8):
-            r3, dt3, s3 = z3_check(hyps + small_bounds(hyps + [ob.goal], B), ob.goal, max(2000, timeout_ms // 4))
+    return ob
+
+
+def second_pass(ob, extra_hyps=(), timeout_ms=10000, refute=True, use_cvc5=True):
+    """for an obligation the first pass left `unknown`: other seeds (quantifier instantiation is seed-sensitive), then -- if
+    `refute` -- model search on small instances (R4), then cvc5.  unknown is never a violation."""
+    hyps = list(extra_hyps) + list(ob.hyps)
+    t_each = max(1500, timeout_ms // 4)
+    if refute:
+        # R4': ground instantiation of the universally quantified hypotheses over a small index range.  This WEAKENS the
+        # hypotheses, so a model found here is only a candidate: it counts as a refutation only if the native replay of the
+        # model on the real code reproduces the violation (ob.extra['needs_validation'])
+        for inst in (list(ob.extra.get('refute') or []) or [None]):
+            try:
+                hy2, g2 = instantiate(hyps, ob.goal, inst) if inst else (hyps, ob.goal)
+                hy3 = [z3.simplify(expand_foralls(h, -1, 8)) for h in hy2]
+            except Exception:
+                continue
+            r6, dt6, s6 = z3_check(hy3, g2, t_each)
+            ob.time += dt6
+            if r6 == sat:
+                ob.result = 'refuted'; ob.model = s6.model(); ob.extra['needs_validation'] = True
+                ob.backend = f'z3(ground instances{", " + inst.get("name") if inst else ""})'
+                return ob
+    for seed in (7, 23):
+        r4, dt4, s4 = z3_check(hyps, ob.goal, t_each * 2, seed=seed)
+        ob.time += dt4
+        if r4 == unsat:
+            ob.result = 'proved'; ob.backend = f'z3(seed={seed})'; return ob
+        if r4 == sat:
+            ob.result = 'refuted'; ob.model = s4.model(); ob.backend = f'z3(seed={seed})'; return ob
+    if refute:
+        for inst in (ob.extra.get('refute') or []):
+            try:
+                hy2, g2 = instantiate(hyps, ob.goal, inst)
+            except Exception:
+                continue
+            r5, dt5, s5 = z3_check(hy2 + small_bounds(hy2 + [g2], 12), g2, t_each)
+            ob.time += dt5
+            if r5 == sat:
+                ob.result = 'refuted'; ob.model = s5.model(); ob.backend = f'z3(instance {inst.get("name")})'
+                return ob
+        for B in (2, 6):
+            r3, dt3, s3 = z3_check(hyps + small_bounds(hyps + [ob.goal], B), ob.goal, t_each)
             ob.time += dt3
             if r3 == sat:
                 ob.result = 'refuted'; ob.model = s3.model(); ob.backend = f'z3(bounded-ints<={B})'
                 return ob
-        if use_cvc5:
-            res, dt2 = cvc5_check(s, timeout_ms)
-            ob.time += dt2
-            if res == 'unsat':
-                ob.result = 'proved'; ob.backend = 'cvc5'
-            elif res == 'sat':
-                # cvc5 found a model but we cannot read it back here: retry z3 with a longer budget for a model
-                r2, dt3, s2 = z3_check(hyps, ob.goal, timeout_ms * 3)
-                ob.time += dt3
-                if r2 == sat:
-                    ob.result = 'refuted'; ob.model = s2.model(); ob.backend = 'z3'
-                else:
-                    ob.result = 'refuted'; ob.backend = 'cvc5'; ob.model = None
+    if use_cvc5:
+        sd = Solver(); sd.add(*hyps); sd.add(Not(ob.goal))
+        res, dt2 = cvc5_check(sd, timeout_ms)
+        ob.time += dt2
+        if res == 'unsat':
+            ob.result = 'proved'; ob.backend = 'cvc5'
+        elif res == 'sat':
+            ob.result = 'refuted'; ob.backend = 'cvc5'; ob.model = None
     return ob
 
 
@@ -96,3 +141,38 @@ def small_bounds(exprs, B):
             consts[t.get_id()] = t
         stack.extend(t.children())
     return [z3.And(c >= -B, c <= B) for c in consts.values()]
+
+
+def instantiate(hyps, goal, inst):
+    """inst: {'name', 'consts': [(const, value)], 'funs': [(decl, body over Var(i))]}: substitute and keep the equalities so that
+    the model still talks about the original symbols"""
+    funs = inst.get('funs', [])
+    consts = [(c, v) for c, v in inst.get('consts', [])]
+    def tr(e):
+        if funs:
+            e = z3.substitute_funs(e, *funs)
+        if consts:
+            e = z3.substitute(e, *consts)
+        return e
+    hy2 = [tr(h) for h in hyps] + [c == v for c, v in consts]
+    return hy2, tr(goal)
+
+
+def expand_foralls(e, lo, hi, maxvars=2):
+    """positive-polarity expansion of universal quantifiers over Int variables into their instances on [lo, hi]; quantifiers that
+    cannot be expanded (other sorts, too many variables) are dropped, which only weakens a hypothesis"""
+    import itertools
+    if z3.is_quantifier(e) and e.is_forall():
+        n = e.num_vars()
+        if all(e.var_sort(i) == z3.IntSort() for i in range(n)) and n <= maxvars:
+            out = []
+            for vals in itertools.product(range(lo, hi + 1), repeat=n):
+                inst = z3.substitute_vars(e.body(), *[z3.IntVal(v) for v in reversed(vals)])
+                out.append(expand_foralls(inst, lo, hi, maxvars))
+            return z3.And(*out)
+        return z3.BoolVal(True)
+    if z3.is_and(e):
+        return z3.And(*[expand_foralls(c, lo, hi, maxvars) for c in e.children()])
+    if z3.is_implies(e):
+        return z3.Implies(e.arg(0), expand_foralls(e.arg(1), lo, hi, maxvars))
+    return e
